@@ -93,6 +93,15 @@ def r1(db, rep):
                 i0 = facts.strip_all(n["c"][0])
                 if i0["k"] == "DeclRefExpr" and i0.get("var") == pb:
                     aliases.add(n["var"])
+        # pointers into the buffer (`uint8_t* const p = buffer + offsetof(hdr, check)`) reach it too: only for the patch test
+        into = set(aliases)
+        cursors = set(n["var"] for n in facts.fn_nodes(f) if n["k"] == "VarDecl" and n.get("c") and
+                      "OutputMemoryStream" in ((facts.tyi(f, n.get("t")) or {}).get("s") or "") and
+                      any(x["k"] == "DeclRefExpr" and x.get("var") in aliases for x in facts.walk(n["c"][0])))
+        for n in facts.fn_nodes(f):
+            if n["k"] == "VarDecl" and n.get("c") and (facts.tyi(f, n.get("t")) or {}).get("k") == "ptr" and \
+                    any(x["k"] == "DeclRefExpr" and (x.get("var") in aliases or x.get("var") in cursors) for x in facts.walk(n["c"][0])):
+                into.add(n["var"])          # buffer + K, or cursor.pointer() of the cursor laid over the buffer
         sums = [n for n in facts.fn_nodes(f) if n["k"] == "CallExpr" and n.get("cname") in SUM_FNS]
         writes = [n for n in facts.fn_nodes(f) if n["k"] == "CXXMemberCallExpr" and n.get("crec") == "Tins::Memory::OutputMemoryStream"
                   and n.get("cname") in ("write", "write_be", "write_le", "fill")]
@@ -150,7 +159,7 @@ def r1(db, rep):
         for n in facts.fn_nodes(f):
             if n["k"] == "CallExpr" and n.get("cname") == "memcpy":
                 d = facts.strip_all(n["c"][1])
-                if any(x["k"] == "DeclRefExpr" and x.get("var") in aliases for x in facts.walk(n["c"][1])):
+                if any(x["k"] == "DeclRefExpr" and x.get("var") in into for x in facts.walk(n["c"][1])):
                     patches.append(n)
             if n["k"] == "BinaryOperator" and n.get("op") == "=":
                 lhs = strip(n["c"][0])
@@ -517,10 +526,10 @@ def r4(db, rep):
             continue
         fl = fills[0]
         zero = facts.cval(fl["c"][2]) == 0
-        amt = facts.expr_str(fl["c"][1]).replace("this->", "")
-        amt_ok = amt == "trailer_size()" or any(v["k"] == "VarDecl" and v.get("name") == amt and v.get("c") and
-                                                facts.expr_str(v["c"][0]).replace("this->", "") == "trailer_size()" for v in facts.fn_nodes(f))
-        sk_ok = any(facts.expr_str(s["c"][1]).replace("this->", "") in ("inner_pdu()->size()", "inner_pdu_->size()") and
+        # named locals (`payload = inner_pdu()`, `padding = trailer_size()`) are read through
+        amt = facts.expr_str(facts.inline_locals(f, fl["c"][1])).replace("this->", "")
+        amt_ok = amt == "trailer_size()"
+        sk_ok = any(facts.expr_str(facts.inline_locals(f, s["c"][1])).replace("this->", "") in ("inner_pdu()->size()", "inner_pdu_->size()") and
                     g.reachable(g.pos(s), g.pos(fl)) for s in skips)
         if zero and amt_ok and sk_ok:
             rep.ok("R4-padding", key, facts.loc(f, fl), "skip(inner_pdu()->size()) then fill(trailer_size(), 0)")
